@@ -494,7 +494,7 @@ pub fn c15a_case(ex: &mut Expander, tape: &Vec<u32>, st: &mut Stats) -> Result<(
         let items = proj::mod_items(sv);
         for kind in Kind::ENUMS {
             let used = used_params(&p, n + 1, kind);
-            let want: BTreeSet<String> = used.iter().map(|i| format!("A{i}")).collect();
+            let want: BTreeSet<String> = used.iter().map(|i| iface.assoc_name(*i)).collect();
             let tname = format!("{}{}", iface.trait_name, kind.msg_ty());
             let Some(info) = proj::type_info(items, &tname) else {
                 return Err(viol("type-missing", "generated interface message type not found", json!({"type": tname})));
